@@ -160,6 +160,13 @@ def rule3_noearly(ctx, v, rule='C20.3'):
                 ctx.ob(rule, 'nanosleep: returns 0 only past the deadline', any(f.on_edge(c, p, anchor) for c, p in conds),
                        'the sleep ends only on the edge now > deadline', loc=anchor.loc)
     wait_loops(ctx, f, 'nanosleep', dts)
+    # every sleeper has its own deadline: nothing of the sleep's state is kept in static storage
+    statics = [st for st in f.order if st.op in ('store',) and isinstance(f.ap(st.ops[1]).root, dict) and f.ap(st.ops[1]).root.get('g')] + \
+              [c_ for c_ in f.calls() if c_.callee in ('hr_gettime', 'myth_timespec_add') and
+               any(isinstance(a_, (str, dict)) and isinstance(f.ap(a_).root, dict) and f.ap(a_).root.get('g') for a_ in c_.args)]
+    ctx.ob(rule, 'nanosleep: deadline and clock sample live in the caller\'s frame', not statics,
+           'a static deadline is shared by all user-level threads that sleep at the same time: a long sleep returns at a later, shorter '
+           'sleep\'s deadline', loc=(statics[0].loc if statics else f.loc))
     # the request may be the same object as the remainder (nanosleep(&ts, &ts)): nothing is stored through rem before the deadline
     # has been computed from req
     rem = f.param_named('rem') or 'a1'
@@ -304,6 +311,8 @@ def run(ctx):
 SCHED = 'src/myth_sched_func.h'
 SYNC = 'src/myth_sync_func.h'
 MUTANTS = [
+    {'name': 'nanosleep keeps its deadline in static storage (seed5 C20/m2)', 'expect': 'C20.3',
+     'edits': [(SCHED, "  struct timespec unt[1], cur[1];\n  (void)rem;", "  static struct timespec unt[1], cur[1];\n  (void)rem;")]},
     {'name': 'nanosleep clears *rem before reading *req (seed4 C20/m2)', 'expect': 'C20.3',
      'edits': [(SCHED, "  if (req->tv_nsec > 999999999) return EINVAL;\n  hr_gettime(cur);", "  if (req->tv_nsec > 999999999) return EINVAL;\n  if (rem) { rem->tv_sec = 0; rem->tv_nsec = 0; }\n  hr_gettime(cur);")]},
     {'name': 'nanosecond range checked on the low 32 bits only (seed3 C20/m1)', 'expect': 'C20.1',
